@@ -60,6 +60,11 @@ var valueKinds = []string{
 	`({get a(){throw new Error("g")},set a(v){throw new Error("s")}})`,
 	"this", "Math", "JSON", "Object.prototype", "Array.prototype", "Function.prototype",
 	"goStruct", "goMap", "goSlice", "goArray", "goFunc", "goPtr",
+	// strings that are not valid UTF-8: handed in by the host, or cut out of a character by a byte offset
+	"hostBytes", `(function(){var r=/./g; r.lastIndex=1; var m=r.exec("\u00e9"); return m ? m[0] : "none"})()`,
+	// conversions to Go parameter types: a toString that returns its own object, an object that contains
+	// itself (for a recursive Go struct type), arrays for Go array elements
+	`({toString:function(){return this}})`, `(function(){var o={V:1}; o.Next=o; return o})()`, "[1.5]", "goStr", "goNode", "goPoints", "goNilFunc",
 	// values produced by multi-step reflective sequences (appended: witnesses refer to kinds by index)
 	"(function(){var o={x:1};Object.defineProperty(o,'x',{get:undefined,set:function(v){}});return Object.getOwnPropertyDescriptor(o,'x').get})()",
 	"(function(){var o={x:1};Object.defineProperty(o,'x',{get:function(){return 1},set:undefined});return Object.getOwnPropertyDescriptor(o,'x')})()",
@@ -122,6 +127,18 @@ type goS struct {
 
 func (g goS) Method(x int) int { return x + g.A }
 
+// goNode is a recursive Go type (a cyclic JavaScript object has no finite conversion to it).
+type goNode struct {
+	Next *goNode
+	V    int
+}
+
+// goCB has callback fields that are not set.
+type goCB struct {
+	OnChange func(string) string
+	Name     string
+}
+
 func newVM() *otto.Otto {
 	vm := otto.New()
 	vm.SetStackDepthLimit(300)
@@ -131,6 +148,17 @@ func newVM() *otto.Otto {
 	vm.Set("goSlice", []int{1, 2, 3})
 	vm.Set("goArray", [2]string{"x", "y"})
 	vm.Set("goFunc", func(a int, b string) (int, error) { return a + len(b), nil })
+	vm.Set("hostBytes", "caf\xe9\xff")
+	vm.Set("goStr", func(s string) string { return s })
+	vm.Set("goNode", func(n *goNode) int {
+		if n == nil {
+			return 0
+		}
+		return n.V
+	})
+	vm.Set("goPoints", [][2]float64{{1, 2}})
+	vm.Set("goNilFunc", (func(int) int)(nil))
+	vm.Set("goCallbacks", &goCB{})
 	return vm
 }
 
@@ -536,6 +564,9 @@ var apis = []string{"Run", "Eval", "Compile", "Call", "Object", "eval", "Functio
 // hostileThrows: the value that reaches the API boundary uncaught has to be
 // described (name, message, toString), which runs script code again.
 var hostileThrows = []string{
+	// conversions for Go parameters that have no end by themselves (a fatal stack overflow kills the worker)
+	"goStr({toString:function(){return this}})", "var o={V:1}; o.Next=o; goNode(o)", "goStruct.B = {toString:function(){return this}}", "goCallbacks.OnChange('x')", "goNilFunc(1)",
+	"goPoints[0] = [1.5]", "goPoints.push([7.5])", "'abc'.replace(hostBytes, 'x')", "hostBytes.replace(hostBytes, function(){ return hostBytes })",
 	"throw {toString: function(){ throw 1 }}",
 	"throw {toString: function(){ throw new RangeError('inner') }}",
 	"throw {toString: function(){ throw {toString: function(){ throw 3 }} }}",
@@ -556,7 +587,15 @@ var hostileThrows = []string{
 	"(function f(){ throw {toString: f} })()",
 }
 
+// sourceMaps: base64 bodies of inline source map comments (a map with mappings into a source it does not list,
+// ordinary maps, sectioned and malformed ones). The parser reads such a comment on the last line of any source.
+var sourceMaps = []string{"eyJ2ZXJzaW9uIjozLCJzb3VyY2VzIjpbXSwibmFtZXMiOltdLCJtYXBwaW5ncyI6IkFBQUEifQ==", "eyJ2ZXJzaW9uIjozLCJzb3VyY2VzIjpbImEuanMiXSwibmFtZXMiOltdLCJtYXBwaW5ncyI6IkFBQUE7QUFDQTs7QUFFQSJ9", "eyJ2ZXJzaW9uIjozLCJzb3VyY2VzIjpbImEuanMiXSwibmFtZXMiOlsibiJdLCJtYXBwaW5ncyI6IkFBQUFBLENBQUMsQ0FBQyJ9", "eyJ2ZXJzaW9uIjozLCJzb3VyY2VzIjpbXSwibmFtZXMiOltdLCJtYXBwaW5ncyI6IkFBQ0E7QUNBQTtBRUFBIn0=", "eyJ2ZXJzaW9uIjozLCJzb3VyY2VSb290IjoiL3IiLCJzb3VyY2VzIjpbIngiXSwibWFwcGluZ3MiOiI7Ozs7QUFBQSJ9", "e30=", "eyJ2ZXJzaW9uIjozLCJzb3VyY2VzIjpudWxsLCJtYXBwaW5ncyI6IkFBQUEifQ==", "eyJ2ZXJzaW9uIjozLCJzb3VyY2VzIjpbImEiXSwibWFwcGluZ3MiOiIhISEhIn0=", "WzEsMl0=", "eyJ2ZXJzaW9uIjozLCJzZWN0aW9ucyI6W3sib2Zmc2V0Ijp7ImxpbmUiOjAsImNvbHVtbiI6MH0sIm1hcCI6eyJ2ZXJzaW9uIjozLCJzb3VyY2VzIjpbXSwibWFwcGluZ3MiOiJBQUFBIn19XX0=", "e30", "!!!", ""}
+
 func hostileSource(r *gen.Rand) string {
+	if r.Chance(1, 12) {
+		prog := []string{"new Error('x').stack", "throw new Error('y')", "null.x", "(function f(){ return g() })()", "var e; try { undefinedFn() } catch (x) { e = x } [e.stack, String(e)].join()", "1"}[r.Intn(6)]
+		return prog + "\n//# sourceMappingURL=data:application/json;base64," + sourceMaps[r.Intn(len(sourceMaps))]
+	}
 	if r.Chance(1, 6) {
 		if r.Bool() {
 			return hostileThrows[r.Intn(len(hostileThrows))]
@@ -667,19 +706,21 @@ func runSource(c *run.Ctx, in Input) {
 	vm.Interrupt <- tick
 	pv, st := run.Guard(func() {
 		var v otto.Value
+		var rerr error
 		switch in.API {
 		case "Run":
-			v, _ = vm.Run(src)
+			v, rerr = vm.Run(src)
 		case "Eval":
-			v, _ = vm.Eval(src)
+			v, rerr = vm.Eval(src)
 		case "Compile":
 			s, err := vm.Compile("f.js", src)
+			rerr = err
 			if err == nil {
-				v, _ = vm.Run(s)
+				v, rerr = vm.Run(s)
 				_ = s.String()
 			}
 		case "Call":
-			v, _ = vm.Call(src, nil, 1, "a")
+			v, rerr = vm.Call(src, nil, 1, "a")
 		case "Object":
 			o, err := vm.Object(src)
 			if err == nil && o != nil {
@@ -696,6 +737,13 @@ func runSource(c *run.Ctx, in Input) {
 			v, _ = vm.Get(src)
 		}
 		touch(v)
+		// the error is a value of the API as well: its texts resolve positions (through a source map, if the source named one)
+		if rerr != nil {
+			_ = rerr.Error()
+			if oe, ok := rerr.(*otto.Error); ok {
+				_ = oe.String()
+			}
+		}
 	})
 	if pv != nil {
 		if _, ok := pv.(halt); ok {
@@ -728,6 +776,8 @@ var stackShapes = map[string]string{
 	"unbounded-eval-fn":       "function f(){return eval('f()')} f()",
 	"unbounded-function-ctor": "var f=Function('return f()'); f()",
 	"unbounded-tojson":        "var o={toJSON:function(){return JSON.stringify(o)}}; JSON.stringify(o)",
+	"unbounded-reviver":       `JSON.parse('{"a":1,"b":2}', function(k,v){ if (k==='a') this.b={a:1,b:2}; return v })`,
+	"unbounded-reviver-array": `JSON.parse('[1,2]', function(k,v){ if (k==='0') this[1]=[1,2]; return v })`,
 	"unbounded-sort":          "function c(){[2,1].sort(c); return 0} c()",
 	"unbounded-replace":       "function r(){return 'x'.replace(/x/,r)} r()",
 	"unbounded-valueof":       "var o={valueOf:function(){return o+1}}; o+1",
